@@ -153,6 +153,32 @@ Theorem C13_snapshot_revert_partial : ∀ j ops,
 Proof. exact snapshot_revert. Qed.
 Print Assumptions C13_snapshot_revert_partial.
 
+(* Why the RIPEMD-160 zero-value touch is excluded ([sticky_j] / [no_sticky]): journal.touchChange
+   of 0x03 adds, through ripemdMagic, a second Touch count that journal.revert never removes.
+   So for that one call revert is NOT a left inverse - the statement of [C13_revert_restores]
+   without its last hypothesis is false: from the empty state, AddBalance(0x03, 0) followed by
+   a revert to journal length 0 leaves journal.mutations[0x03] behind (Touch count 1), although
+   no journal entry mentions 0x03 any more.  (The refinement itself is expected to hold for it -
+   the reference has the corresponding sticky bit and the correspondence check exercises the
+   call on every run - but its proof needs the stack relation of [Inv] taken modulo that
+   count and a commutation lemma between one step of journal.revert and the marker, which in
+   turn needs the stashed originals determined by the live entries; not done.  The marker
+   arithmetic itself is covered for all histories by [C13_dirties_exact]/[C13_counts_exact].) *)
+Theorem C13_revert_restores_sticky_refuted :
+  ∃ j o, wf j ∧ core_op o = true ∧ op_ok j o = true ∧ sticky_j j o = true ∧
+         revert_to (length (j_entries j)) (step_j j o).1 ≠ j ∧
+         j_entries (revert_to (length (j_entries j)) (step_j j o).1) = [] ∧
+         (c_touch <$> j_muts (revert_to (length (j_entries j)) (step_j j o).1) !! ripemd) = Some 1%Z.
+Proof.
+  exists (init_j ∅), (OAddBalance ripemd 0). split; [apply wf_init|].
+  split; [done|]. split; [done|]. split; [done|].
+  assert (E : (c_touch <$> j_muts (revert_to (length (j_entries (init_j ∅))) (step_j (init_j ∅) (OAddBalance ripemd 0)).1) !! ripemd) = Some 1%Z)
+    by (by vm_compute).
+  split; [|split; [by vm_compute|exact E]].
+  intros Heq. rewrite Heq in E. by vm_compute in E.
+Qed.
+Print Assumptions C13_revert_restores_sticky_refuted.
+
 (* The guards of the refinement are necessary.  Without "a new contract has been
    touched by the end of its transaction" (evm.create always sets the nonce):
    CreateContract on a funded, untouched account; Finalise; IsNewContract still true. *)
